@@ -23,6 +23,14 @@ CLAIMS = {
         "a bracketed-number alternative whose opening keyword can start a later alternative is strict (MIR dominator rule); numbers go through "
         "Display/str::parse. Value equality parse(format(v)) = v for all v is not decided.",
    note="Trusted: rustc front end/MIR construction, mirfacts driver, Python rule layer; f64 Display emits digits and '.' only for finite [0,1] values."),
+ "C10": dict(
+   level="other", design="DESIGN.md §4 C10",
+   technique="static analysis: symbolic evaluation of derived constructors vs an independent desugaring table; callee-identity and who-may-write rules over HIR/MIR",
+   text="Decides C10 as shape facts for all formats and both pipelines at once: the four derived constructors evaluate to the documented "
+        "desugared trees; both the enum parser's and the fold's keyword chains route the derived copula fields to them with operands in source order; "
+        "the image index is the first-placeholder position (Iterator::position / enumerate counter), removed/pushed in order, flowing without arithmetic "
+        "into the only sites allowed to write it; interval = str::parse::<usize>, placeholder ignores its name. Nothing is executed.",
+   note="Trusted: rustc front end/MIR, std semantics of Iterator::position, enumerate and usize::from_str; the checker's independent desugaring table (from the documentation)."),
 }
 
 NOT_YET = "check not built yet (DESIGN.md §8 build order); will be claimed once its rules run"
